@@ -476,3 +476,12 @@ mut('c16-im2col-pad-value-dropped', ['C16'], 'im2col ignores pad_value', [(CT, "
 mut('c16-layout-wrong-perm', ['C16'], 'im2col_v2 2-D layout uses transpose(1, 0, 2)', [(CT, "        output = output.transpose(1, 2, 0).reshape(kernel_size[0] * kernel_size[1] * C, -1)\n            \n    return output", "        output = output.transpose(1, 0, 2).reshape(kernel_size[0] * kernel_size[1] * C, -1)\n            \n    return output")], rules=['C16.LAYOUT2D'])
 mut('c16-empty-guard-dropped', ['C16', 'C06'], 'im2col_v2 no longer rejects an empty output', [(CT, "    if L <= 0:\n        raise RuntimeError('Cannot unfold a tensor", "    if L < -10**9:\n        raise RuntimeError('Cannot unfold a tensor")], rules=['C16.EMPTY', 'C06.EMPTY'])
 mut('c16-twin-outsize-floordiv', ['C16', 'C06'], 'conv2d output size written with //', [(CT, "lW = int(np.floor((W_with_pad - dilation[1] * (kernel_size[1] - 1) - 1) / stride[1] + 1))\n    \n    return lH, lW", "lW = (W + 2 * padding[1] - dilation[1] * (kernel_size[1] - 1) - 1) // stride[1] + 1\n    \n    return lH, lW")], expect='silent')
+
+# ------------------------------------------------------------------------------------------------ C14
+mut('c14-ce-eps (revert of fix)', ['C14'], 'cross entropy composes NLL with log(softmax + eps), not log_softmax', [(K, "    log_softmax = log_softmax_forward(y_pred, 1)\n    log_likelihood = nll_loss_forward(log_softmax, y_true)", "    log_softmax = np.log(softmax_forward(y_pred, 1) + epsilon)\n    log_likelihood = nll_loss_forward(log_softmax, y_true)")], rules=['C14.TREE'])
+mut('c14-addmm-order', ['C14'], 'addmm_forward computes a + c @ b', [(K, "    return a + (b @ c)", "    return a + (c @ b)")], rules=['C14.TREE'])
+mut('c14-neuron-two-outputs', ['C14'], 'Neuron builds a Linear with 2 outputs', [(LY, "super().__init__(in_features, 1, bias=bias)", "super().__init__(in_features, 2, bias=bias)")], rules=['C14.TREE'])
+mut('c14-mean-backward-no-division', ['C14', 'C01'], 'mean_backward forgets to divide by the count', [(K, "    return out_grad / n_samples", "    return out_grad")], rules=['C14.TREE'])
+mut('c14-avgpool-uses-max-backward', ['C14', 'C02'], 'avg_pool2d_backward routes the gradient through max_backward', [(K, "    windows_grad = mean_backward(grad, windows.reshape(*windows.shape[:-2], -1).shape, -1, False)\n    windows_grad = windows_grad.reshape(windows.shape)", "    windows_grad = max_backward(grad, windows.reshape(*windows.shape[:-2], -1), -1, False)\n    windows_grad = windows_grad.reshape(windows.shape)")], rules=['C14.TREE', 'C02.POOLPAIR'])
+mut('c14-stack-backward-other-axis', ['C14'], 'stack_backward unbinds along axis 0', [(K, "    return unbind_forward(grad, axis)", "    return unbind_forward(grad, 0)")], rules=['C14.TREE'])
+mut('c14-linear-untransposed', ['C14', 'C02'], 'linear multiplies by W instead of W.T in the bias branch', [(NF, "out_data = cpu_ops.addmm_forward(bias.data, x.data, weight.data.T)", "out_data = cpu_ops.addmm_forward(bias.data, x.data, weight.data)")], rules=['C14.TREE', 'C02.SAVED'])
